@@ -97,6 +97,32 @@ func (g *compGen) answer() {
 	g.c.Emit("cev answer " + encMove(m))
 }
 
+var compTells = []string{"level 1", "level 2", "level 3", "level 5", "level 7", "level 12", "level 13", "level 14", "level 15", "level 0",
+	"level 99", "level max", "level x", "LEVEL 4", "Level 9", "level", "level  3", "level 3 4", "level -1", "level 18446744073709551615",
+	"help", "HELP me", "size 5", "size 9", "hello", "levels 3"}
+
+// a chat line `Tell <who> msg` during the game (work package botcompose2): the `level` command replaces f.ai
+// "starting right now" when it comes from the opponent - possibly while a thinker is inside the old engine
+func (g *compGen) tell() {
+	who := "Opp"
+	if g.r.Chance(1, 4) {
+		who = "Kibitz"
+	}
+	msg := compTells[g.r.Intn(len(compTells))]
+	if g.r.Chance(1, 2) {
+		msg = "level " + strconv.Itoa(1+g.r.Intn(14))
+	}
+	cs := g.sess()
+	cs.b.mu.Lock()
+	pending := cs.search != nil
+	cs.b.mu.Unlock()
+	g.deliver("Tell <" + who + "> " + msg)
+	g.c.Count("ev:tell:" + who)
+	if pending {
+		g.c.Count("ev:tell-while-searching")
+	}
+}
+
 var compV1 = []int64{0, 1, int64(ai.WinThreshold) - 1, int64(ai.WinThreshold), int64(ai.WinThreshold) + 7, -int64(ai.WinThreshold) - 1}
 var compV2 = []int64{0, 5, -int64(ai.WinThreshold) - 1, -int64(ai.WinThreshold), -int64(ai.WinThreshold) + 1}
 
@@ -128,6 +154,10 @@ func (g *compGen) step(hold *int) bool {
 	}
 	if *hold > 0 {
 		*hold--
+	}
+	if g.r.Chance(1, 7) {
+		g.tell()
+		return true
 	}
 	p := game.VerifP()
 	fin, _ := p.GameOver()
